@@ -69,7 +69,13 @@ DoBuildForce(e) ==
   /\ LET raised == e.raised # ""
          c02 == IF ~raised /\ Want("C02") THEN C02Build(e) ELSE [fails |-> {}, kf |-> {}, hits |-> {}, rejected |-> FALSE]
          c16 == IF ~raised /\ Want("C16") THEN C16Build(e) ELSE [fails |-> {}, kf |-> {}, hits |-> {}, rejected |-> FALSE]
-     IN EmitV(e, c02.fails \cup c16.fails \cup SetIf(raised, "BUILD.raised"), c02.kf \cup c16.kf,
+         \* known finding: a LOOP interface (a cell attached through one junction only: its outline runs from the junction
+         \* back to itself) at a junction that ends an internal interface makes the direction look-up assert
+         kfLoop == raised /\ m # None /\ fr # None /\
+                   \E i \in DOMAIN fr.ifaces : LET p == fr.ifaces[i] IN
+                        Len(p) > 1 /\ First(p) = Last(p) /\ \E j \in InternalIdx(m, fr) : First(p) \in EndsOfPath(fr.ifaces[j])
+     IN EmitV(e, c02.fails \cup c16.fails \cup SetIf(raised /\ ~kfLoop, "BUILD.raised"),
+              c02.kf \cup c16.kf \cup SetIf(kfLoop, "KF_LoopInterface:BUILD.raised"),
               c02.hits \cup c16.hits, {}, c02.rejected \/ c16.rejected)
   /\ fm' = IF e.raised # "" THEN None ELSE e.fm
   /\ bo' = e.opts
